@@ -3,7 +3,7 @@
    Model: model/Truncate.v.  [incl] = the comparison of the BEFORE loop: true is `MaxTs <= OldestTs`
    ([code_incl]; false = `<` since the fix, true = the `<=` the code had before).  A run maps the partitions [st] to one slot each (same positions):
    Kept p' (still there) or Dropped (deleteJournal succeeded), plus the report lines. *)
-From LR Require Import lib.Base model.Truncate proofs.TruncateP.
+From LR Require Import lib.Base model.Truncate proofs.TruncateP proofs.TruncateSelP.
 Open Scope N_scope.
 
 (* ---- suffix at a chunk boundary, for every layout, every parameter combination, any visiting order ---- *)
@@ -18,6 +18,27 @@ Theorem C09_untouched : forall incl tp st, NoDup (map p_key st) ->
   nth_error (fst (Truncate incl tp st)) i = Some (Kept p).
 Proof. exact truncate_all_untouched. Qed.
 Print Assumptions C09_untouched.
+
+(* ... and not reported: every line of the report (DRYRUN or real, with or without MAXDBSIZE) is about a partition that
+   matches the source condition and is not locked exclusively. A partition whose journal cannot be opened is skipped by
+   the visitor at once; it enters the model with p_match = false (K: the injected-fault cases). *)
+Theorem C09_report_selected : forall incl tp st ti, In ti (snd (Truncate incl tp st)) ->
+  exists p, In p st /\ p_key p = i_key ti /\ p_match p = true /\ p_excl p = false.
+Proof. exact report_selected. Qed.
+Print Assumptions C09_report_selected.
+
+(* a statement that selects nothing changes nothing and reports nothing, whatever MINSIZE/MAXSIZE/BEFORE/MAXDBSIZE ask for *)
+Theorem C09_none_selected : forall incl tp st, (forall p, In p st -> p_match p = false \/ p_excl p = true) ->
+  Truncate incl tp st = (map Kept st, []).
+Proof. exact Truncate_none_selected. Qed.
+Print Assumptions C09_none_selected.
+
+(* a source condition the tag-condition builder refuses: the statement fails before any partition is looked at
+   (TruncateStmt .. false = None: no report, no slot changes; K: KTruncRefused) *)
+Theorem C09_refused_source : forall incl tp st,
+  TruncateStmt incl false tp st = None /\ TruncateStmt incl true tp st = Some (Truncate incl tp st).
+Proof. intros incl tp st. split; reflexivity. Qed.
+Print Assumptions C09_refused_source.
 
 (* chunks that a concurrent writer creates after TRUNCATE read the chunk list (larger ids) survive the deletion *)
 Theorem C09_suffix_appended : forall last cks more, (forall d, In d more -> last < c_id d) ->
